@@ -3,8 +3,8 @@
 # worktree of /repo, say whether the translator accepts the source and which lemma stops checking.
 #   sh docs/tie_tests/T14/quick_probe.sh [name-prefix ...]
 # Writes coq/gen/Writer*_gen.v of this worktree; restores them from /repo at the end.
-V=/tmp/vb_T14
-SC=/tmp/sc_T14_probe
+V=${V:-$(cd "$(dirname "$0")/../../.." && pwd)}
+SC=/tmp/sc_R14_probe
 D=$V/docs/tie_tests/T14
 FILES="gen/WriterStruct_gen.v theories/WriterGenProofsStruct.v gen/Writer_gen.v theories/WriterGenProofs.v gen/WriterConfig_gen.v theories/WriterGenProofsConfig.v"
 git -C /repo worktree remove --force $SC >/dev/null 2>&1
@@ -12,14 +12,14 @@ git -C /repo worktree add --detach $SC HEAD >/dev/null 2>&1 || exit 1
 probe() {
   cd $V
   res=""
-  PCFG_REPO=$SC /venv/bin/python harness/translate_writer.py --write >/tmp/sc_T14_probe.log 2>&1 || \
-    res="REFUSED: $(grep -o 'TranslateError.*' /tmp/sc_T14_probe.log | tail -1 | cut -c1-260); "
+  PCFG_REPO=$SC /venv/bin/python harness/translate_writer.py --write >/tmp/sc_R14_probe.log 2>&1 || \
+    res="REFUSED: $(grep -o 'TranslateError.*' /tmp/sc_R14_probe.log | tail -1 | cut -c1-260); "
   cd $V/coq
   for f in $FILES; do
     [ -f $f ] || continue
     if grep -q "translation of the current sources FAILED" $f; then continue; fi
-    if ! timeout 600 coqc -Q theories Pcfg -Q gen PcfgGen $f >/tmp/sc_T14_probe.log 2>&1; then
-      line=$(grep -o 'line [0-9]*' /tmp/sc_T14_probe.log | head -1 | cut -d' ' -f2)
+    if ! timeout 600 coqc -Q theories Pcfg -Q gen PcfgGen $f >/tmp/sc_R14_probe.log 2>&1; then
+      line=$(grep -o 'line [0-9]*' /tmp/sc_R14_probe.log | head -1 | cut -d' ' -f2)
       lemma=$(head -n "${line:-1}" $f | grep -E '^(Lemma|Theorem|Definition|Example)' | tail -1 | cut -d' ' -f1-2)
       res="${res}PROOF FAILS: $f:$line ($lemma); "
     fi
